@@ -19,14 +19,14 @@ import (
 
 // Scenario fixes role, prefix, alphabet and depth.
 type Scenario struct {
-	Name     string         `json:"name"`
-	Opt      netsim.Options `json:"role"`
-	Prefix   []string       `json:"prefix"`   // letters delivered before the explored part
-	Alphabet []string       `json:"alphabet"` // letters explored
-	Depth    int            `json:"depth"`    // bound on explored letters
-	Extend   []string       `json:"extend,omitempty"` // letters that may be repeated beyond Depth (up to ExtendDepth)
-	ExtendDepth int         `json:"extend_depth,omitempty"`
-	oracle   func(*obs) []mc.Violation
+	Name        string         `json:"name"`
+	Opt         netsim.Options `json:"role"`
+	Prefix      []string       `json:"prefix"`           // letters delivered before the explored part
+	Alphabet    []string       `json:"alphabet"`         // letters explored
+	Depth       int            `json:"depth"`            // bound on explored letters
+	Extend      []string       `json:"extend,omitempty"` // letters that may be repeated beyond Depth (up to ExtendDepth)
+	ExtendDepth int            `json:"extend_depth,omitempty"`
+	oracle      func(*obs) []mc.Violation
 }
 
 // obs is what one run observed.
@@ -44,7 +44,7 @@ type obs struct {
 	runBack  bool // Run returned after Finish
 	// spies
 	process, verify, adds, scores, times, processed int
-	verified, ready, handshake                    bool
+	verified, ready, handshake                      bool
 	// probes after the run
 	managerPicked bool
 	txEntries     int
@@ -271,6 +271,16 @@ func main() {
 		total.Merge(st)
 		per = append(per, map[string]any{"scenario": sc.Name, "role": sc.Opt, "prefix": sc.Prefix, "alphabet_size": len(sc.Alphabet), "depth": sc.Depth,
 			"extend_depth": sc.ExtendDepth, "states": st.States, "transitions": st.Transitions, "exhaustive": st.Exhaustive, "states_per_depth": st.LevelStates})
+		all = append(all, vs...)
+	}
+	if *prop == "C13" {
+		st, desc, vs := runManagerPart(*prop, *tier == "thorough")
+		if !st.Exhaustive {
+			total.Exhaustive = false
+			total.CapHit = "manager-routing: " + st.CapHit
+		}
+		total.Merge(st)
+		per = append(per, desc)
 		all = append(all, vs...)
 	}
 	if len(total.Samples) > 14 {
